@@ -470,3 +470,29 @@ def in_inches(P, snap=0.5, hostile=True):
         Q['types'][tn]['AxialRegion'][rn]['z_lo'] = lo
         Q['types'][tn]['AxialRegion'][rn]['z_hi'] = hi
     return Q
+
+
+def near_region_bounds(rng, P, models=('simple', '6node')):
+    """Two axial boundaries closer together than an axial step, the lower
+    one a region boundary: two pin-bundle types whose upper regions start a
+    hair apart, or (one type only) a requested axial plane just above the
+    start of its upper region. Returns the gap between the two (m)."""
+    L = P['length']
+    d = float(choose(rng, [1e-5, 1e-4, 1e-4, 5e-4]))
+    z = float(np.round(rng.uniform(0.4, 0.8) * L, 3))
+    names = [n for n, t in P['types'].items()
+             if not t.get('use_low_fidelity_model')]
+    used = {q['type'] for q in P['positions']}
+    names = [n for n in names if n in used]
+    if not names:
+        return None
+    for i, n in enumerate(names[:2]):
+        t = P['types'][n]
+        regs = {k: v for k, v in t.get('AxialRegion', {}).items()
+                if k.startswith('lo') and v['z_hi'] < z - 0.02}
+        regs['up0'] = _ur(rng, z + i * d, L, models)
+        t['AxialRegion'] = regs
+    if len(names) == 1:
+        pl = list(P['setup'].get('axial_plane') or [])
+        P['setup']['axial_plane'] = sorted(pl + [z + d])
+    return d
